@@ -85,6 +85,7 @@ class PathCtx:
         self.concrete = concrete     # dict name -> value: concrete replay mode
         self.fresh = 0
         self.inputs = {}             # name -> z3 const (declared inputs, for model extraction)
+        self.pending_assumes = False  # assumptions added since the path condition was last known satisfiable
 
     # ---- inputs ------------------------------------------------------------------------------
     def _declare(self, name, mk, default):
@@ -141,8 +142,10 @@ class PathCtx:
         if self.pos < len(self.prefix):
             b = self.prefix[self.pos]
         else:
+            self._settle()
             can_t = self._sat(t)
-            can_f = self._sat(z3.Not(t))
+            # the path condition is satisfiable (invariant), so if t is impossible then Not(t) is possible
+            can_f = True if can_t is False else self._sat(z3.Not(t))
             if can_t is None or can_f is None:
                 self.approx = True
             ft = can_t is not False
@@ -172,12 +175,21 @@ class PathCtx:
             return
         if z3.is_false(t):
             raise PathAbort()
-        r = self._sat(t)
-        if r is False:
-            raise PathAbort()
-        if r is None:
-            self.approx = True
         self._add(t)
+        self.pending_assumes = True      # feasibility is checked once, lazily (see _settle)
+
+    def _settle(self):
+        """ re-establish the invariant 'path condition is satisfiable' after a batch of assumptions """
+        if not self.pending_assumes:
+            return
+        self.pending_assumes = False
+        t0 = time.time()
+        r = self.solver.check()
+        self.stats.add('z3', time.time() - t0)
+        if r == z3.unsat:
+            raise PathAbort()
+        if r != z3.sat:
+            self.approx = True
 
     # ---- obligations ---------------------------------------------------------------------------
     def prove(self, cond):
@@ -188,6 +200,7 @@ class PathCtx:
         if self.concrete is not None:
             return ('proved' if cond else 'failed', 'eval', None)
         t = z3.simplify(to_bool_term(cond))
+        self._settle()
         if z3.is_true(t):
             return ('proved', 'eval', None)
         t0 = time.time()
@@ -234,6 +247,7 @@ class PathCtx:
         return out
 
     def model_of_path(self):
+        self.pending_assumes = False
         r = self.solver.check()
         if r == z3.sat:
             return self.extract(self.solver.model())
